@@ -77,14 +77,21 @@ pub fn stages(property: &str, tier: &str, scale: f64) -> Vec<Stage> {
             // that reached the medium must be a prefix of the reference encoding
             Stage { name: "pipeline write-error", arm_id: 8, kind: StageKind::WriteErr, runs: n(200_000) },
             // seed-independent supplement: the complete value space of the small widths
-            Stage { name: "exhaustive: all values of widths 0..13 bits", arm_id: 9, kind: StageKind::SmallValues, runs: gen::small_values_len() },
+            if scale >= 1.0 {
+                Stage { name: "exhaustive: all values of widths 0..13 bits", arm_id: 9, kind: StageKind::SmallValues, runs: gen::small_values_len() }
+            } else {
+                // scaled-down batches (Miri slice, self-tests) only take a prefix of the space
+                Stage { name: "prefix of: all values of widths 0..13 bits", arm_id: 9, kind: StageKind::SmallValues, runs: ((gen::small_values_len() as f64) * scale) as u64 }
+            },
         ],
         "C17" => vec![
             Stage { name: "pipeline destructive", arm_id: 2, kind: StageKind::Pipeline(C17_CFG), runs: n(1_500_000) },
             Stage { name: "text", arm_id: 3, kind: StageKind::Text, runs: n(600_000) },
             Stage { name: "single-fault sweep", arm_id: 4, kind: StageKind::Sweep, runs: n(3_000) },
             // seed-independent supplement: every input of at most 1 (quick) / 2 (thorough) bytes
-            if tier == "thorough" {
+            if scale < 1.0 {
+                Stage { name: "prefix of: all inputs of <= 1 byte, widths 0..13 bits", arm_id: 10, kind: StageKind::ShortInputs(1), runs: ((gen::short_inputs_len(1) as f64) * scale) as u64 }
+            } else if tier == "thorough" {
                 Stage { name: "exhaustive: all inputs of <= 2 bytes, widths 0..13 bits", arm_id: 10, kind: StageKind::ShortInputs(2), runs: gen::short_inputs_len(2) }
             } else {
                 Stage { name: "exhaustive: all inputs of <= 1 byte, widths 0..13 bits", arm_id: 10, kind: StageKind::ShortInputs(1), runs: gen::short_inputs_len(1) }
